@@ -3,6 +3,7 @@ import ast
 
 from ..core import astutil as A
 from ..core import atomic
+from ..core import match as M
 from ..core.model import dotted
 
 META = {
@@ -14,81 +15,144 @@ MOD = "pkgcore.vdb.contents"
 TAGS = {"obj", "sym", "dir", "dev", "fif"}
 
 
+class _Fld:
+    """one field of a written record: the expression, and the format spec when it sits in an f-string"""
+
+    def __init__(self, node, spec=None):
+        self.node, self.spec = node, spec
+        self.text = A.unparse(node) + (":" + spec if spec is not None else "")
+
+    def attr(self, *names):
+        return self.spec is None and isinstance(self.node, ast.Attribute) and self.node.attr in names
+
+    def arrow(self):
+        return isinstance(self.node, ast.Constant) and self.node.value == "->"
+
+    def has(self, pattern, env=None):
+        return self.spec is None and M.pat(pattern).matches(self.node, env) is not None
+
+    def mentions(self, attr):
+        return any(isinstance(x, ast.Attribute) and x.attr == attr for x in ast.walk(self.node))
+
+
+def _effective(stmts):
+    """statements without bare constant expressions (docstrings, no-op lines)"""
+    return [s for s in stmts if not (isinstance(s, ast.Expr) and isinstance(s.value, ast.Constant))]
+
+
 def run(ctx):
     P = ctx.program
     ctx.explanation = META["level"]
     w = P.func(MOD, "ContentsFile._write")
     r = P.func(MOD, "ContentsFile._iter_contents")
     # ---- writer table -----------------------------------------------------
+    # locals are bound by role: the handle is what self._get_fd(True) returns, the record is what is written to
+    # it, the entry is the variable of the loop that holds the write
+    hm = M.one(w.node, "$h = self._get_fd(True)")
+    ctx.require(hm is not None, "ContentsFile._write: write handle not found")
+    hname = hm["h"]
+    wr = [c for c in A.calls(w.node) if M.pat("$h.write(...)").matches(c, hm.env)]
+    loops = [n for n in A.body_walk(w.node) if isinstance(n, ast.For)]
+    ctx.require(loops, "ContentsFile._write: entry loop not found")
+    loop = next((l for l in loops if any(A.contains_node(l, c) for c in wr)), loops[0])
+    line_w = M.pat("$h.write($rec + '\\n')").matches(wr[0], hm.env) if len(wr) == 1 else None
+    if line_w is not None:
+        recs = {line_w["rec"]}
+    else:  # the write changed shape: still find the record variable(s) so that the table is decided
+        recs = {n.id for c in wr for a in c.args for n in ast.walk(a) if isinstance(n, ast.Name)}
+    EW = {"e": A.unparse(loop.target)} if isinstance(loop.target, ast.Name) else {}
+    mh = M.one(w.node, "$mh = get_handler('md5')")
+    if mh is not None:
+        EW["mh"] = mh["mh"]
     wt = {}
-    loop = [n for n in A.body_walk(w.node) if isinstance(n, ast.For)]
-    ctx.require(loop, "ContentsFile._write: entry loop not found")
-    for t, v, st in A.assignments(w.node, "s"):
+    for t, v, st in A.assignments(w.node):
+        if not (isinstance(t, ast.Name) and t.id in recs and A.contains_node(loop, st)):
+            continue
         if isinstance(v, ast.Call) and isinstance(v.func, ast.Attribute) and v.func.attr == "join" and isinstance(v.func.value, ast.Constant):
             sep = v.func.value.value
             elts = v.args[0].elts if isinstance(v.args[0], (ast.Tuple, ast.List)) else None
             ctx.require(elts is not None and isinstance(elts[0], ast.Constant), f"_write: record `{A.unparse(v)[:50]}` not a literal field tuple")
-            wt[elts[0].value] = (sep, [A.unparse(e) for e in elts[1:]])
+            wt[elts[0].value] = (sep, [_Fld(e) for e in elts[1:]])
         elif isinstance(v, ast.BinOp) and isinstance(v.op, ast.Add) and isinstance(v.left, ast.Constant):
             tag = v.left.value
-            wt[tag.strip()] = (tag[len(tag.strip()):], [A.unparse(v.right)])
+            wt[tag.strip()] = (tag[len(tag.strip()):], [_Fld(v.right)])
         elif isinstance(v, ast.JoinedStr):
             lits = [x.value for x in v.values if isinstance(x, ast.Constant)]
             tag = lits[0].split(" ")[0] if lits else "?"
-            fields = [A.unparse(x.value) + (":" + A.unparse(x.format_spec).strip("'f\"") if x.format_spec is not None else "") for x in v.values if isinstance(x, ast.FormattedValue)]
-            wt[tag] = (" ", fields + (["->"] if any("->" in l for l in lits) else []))
+            fields = [_Fld(x.value, A.unparse(x.format_spec).strip("'f\"") if x.format_spec is not None else None) for x in v.values if isinstance(x, ast.FormattedValue)]
+            wt[tag] = (" ", fields + ([_Fld(ast.Constant("->"))] if any("->" in l for l in lits) else []))
     ctx.check("R1", w, set(wt) == TAGS, "writer-tags:" + ",".join(sorted(wt)), "the writer emits obj, sym, dir, dev and fif records", f"writer tags are {sorted(wt)}")
     # ---- reader table --------------------------------------------------------
+    lm = M.one(r.node, "for $line in self._get_fd():\n    ...")
+    ctx.require(lm is not None, "_iter_contents: loop over the lines of the file not found")
+    sp = [c for c in A.calls(lm.node) if M.pat("$line.split(...)").matches(c, lm.env)]
+    ctx.require(len(sp) == 1, "_iter_contents: line split not found")
+    sv = [t.id for t, v, _ in A.assignments(r.node) if v is sp[0] and isinstance(t, ast.Name)]
+    ctx.require(len(sv) == 1, "_iter_contents: the split line is not bound to a variable")
+    ER = {"s": sv[0]}
+    tag_test = M.pat("$s[0]")
+
+    def on_tag(test):
+        return isinstance(test, ast.Compare) and tag_test.matches(test.left, ER) is not None
+
     rt = set()
     for n in A.body_walk(r.node):
-        if isinstance(n, ast.Compare) and A.unparse(n.left) == "s[0]":
+        if on_tag(n):
             v = A.try_literal(n.comparators[0])
             rt |= set(v) if isinstance(v, (tuple, list, set)) else {v}
     ctx.check("R1", r, rt == TAGS, "reader-tags:" + ",".join(sorted(map(str, rt))), "the reader accepts exactly the tags the writer emits", f"reader tags are {sorted(map(str, rt))}")
-    ctx.check("R1", r, any(isinstance(x, ast.Raise) and "unknown entry type" in A.unparse(x) for x in A.body_walk(r.node)), "reader-rejects-unknown", "an unknown record tag raises")
+    # the dispatch on the tag is an if/elif chain whose final else raises
+    chains = [n for n in A.walk_body(lm.node.body) if isinstance(n, ast.If) and on_tag(n.test) and not (isinstance(getattr(n, "_parent", None), ast.If) and on_tag(n._parent.test))]
+    rejects = False
+    for c in chains:
+        while len(_effective(c.orelse)) == 1 and isinstance(_effective(c.orelse)[0], ast.If) and on_tag(_effective(c.orelse)[0].test):
+            c = _effective(c.orelse)[0]
+        rejects = rejects or any(isinstance(x, ast.Raise) for x in c.orelse)
+    ctx.check("R1", r, len(chains) == 1 and rejects, "reader-rejects-unknown", "an unknown record tag raises")
     # separator
     seps = {sep for sep, _ in wt.values()}
     ctx.check("R1", w, seps == {" "}, "writer-separator", "fields are joined with a single space", f"writer separators {seps}")
-    sp = [c for c in A.calls(r.node) if A.call_attr(c) == "split" and A.unparse(c.func.value) == "line"]
-    ctx.require(len(sp) == 1, "_iter_contents: line split not found")
     ctx.check("R1", r, len(sp[0].args) == 1 and A.try_literal(sp[0].args[0]) == " ", "reader-separator",
               "the reader splits on exactly one space (re-joining with ' ' restores runs of blanks inside a path)",
               f"the reader splits with `{A.unparse(sp[0])}`: whitespace runs, tabs and non-breaking spaces inside a path or symlink target collapse to a single space when the fields are re-joined", node=sp[0])
     joins = [c for c in A.calls(r.node) if A.call_attr(c) == "join"]
     ctx.check("R1", r, bool(joins) and all(A.try_literal(c.func.value) == " " for c in joins), "reader-rejoin", "path fields are re-joined with the same single space")
     # per-tag positions
-    slices = sorted({A.unparse(n) for n in A.body_walk(r.node) if isinstance(n, ast.Subscript) and A.unparse(n.value) == "s"})
-    need = {"s[0]", "s[1:]", "s[1:-2]", "s[-2]", "s[-1]", "s[1:p]", "s[p + 1:-1]"}
-    ctx.check("R1", r, need <= set(slices), "reader-slices", "the reader addresses: dir/dev/fif path s[1:], obj path s[1:-2], md5 s[-2], mtime s[-1], sym path s[1:p], target s[p+1:-1]", f"reader slices are {slices}")
+    pm = M.one(r.node, "$p = $s.index('->')", ER)
+    if pm is not None:
+        ER = dict(pm.env)
+    slices = sorted({A.unparse(n) for n in A.body_walk(r.node) if isinstance(n, ast.Subscript) and isinstance(n.value, ast.Name) and n.value.id == ER["s"]})
+    need = ["$s[0]", "$s[1:]", "$s[1:-2]", "$s[-2]", "$s[-1]", "$s[1:$p]", "$s[$p + 1:-1]"]
+    ctx.check("R1", r, pm is not None and all(M.has(r.node, x, ER) for x in need), "reader-slices", "the reader addresses: dir/dev/fif path s[1:], obj path s[1:-2], md5 s[-2], mtime s[-1], sym path s[1:p], target s[p+1:-1]", f"reader slices are {slices}")
     if "obj" in wt:
         f = wt["obj"][1]
-        ctx.check("R1", w, len(f) == 3 and f[0].endswith(".location") and "long2str" in f[1] and "md5" in f[1], "obj-fields", "obj record = location, md5 (long2str), mtime", f"obj fields {f}")
-        ctx.check("R1", w, f[-1] == "str(int(obj.mtime))", "obj-mtime-integral", "a file's mtime is written truncated to an integer: str(int(mtime))",
-                  f"obj mtime is written as `{f[-1]}`: a fractional mtime is rounded (or written as a float) and no longer reads back as int(mtime)")
+        ctx.check("R1", w, len(f) == 3 and f[0].has("$e.location", EW) and mh is not None and f[1].has("$mh.long2str($e.chksums['md5'])", EW), "obj-fields", "obj record = location, md5 (long2str), mtime", f"obj fields {[x.text for x in f]}")
+        ctx.check("R1", w, f[-1].has("str(int($e.mtime))", EW), "obj-mtime-integral", "a file's mtime is written truncated to an integer: str(int(mtime))",
+                  f"obj mtime is written as `{f[-1].text}`: a fractional mtime is rounded (or written as a float) and no longer reads back as int(mtime)")
     if "sym" in wt:
         f = wt["sym"][1]
-        ok = len(f) == 4 and f[0].endswith(".location") and ("'->'" in f[1] or f[1] == "->") and f[2].endswith(".target")
-        ok2 = "->" in f and any(x.endswith(".location") for x in f) and any(x.endswith(".target") for x in f)
-        ctx.check("R1", w, ok or ok2, "sym-fields", "sym record = location, '->', target, mtime", f"sym fields {f}")
-        mt = [x for x in f if "mtime" in x]
-        ctx.check("R1", w, mt == ["str(int(obj.mtime))"], "sym-mtime-integral", "a symlink's mtime is written truncated to an integer", f"sym mtime is written as {mt}")
-    rd = A.unparse(r.node)
-    ctx.check("R1", r, "int(s[-2], 16)" in rd and rd.count("mtime=int(s[-1])") == 2, "reader-codecs", "md5 is read as hex, mtime as int, for files and symlinks")
-    ctx.check("R1", r, "s.index('->')" in rd, "sym-separator-token", "the symlink record is split at the '->' token")
-    ctx.check("R1", w, any(isinstance(n, ast.Call) and dotted(n.func) == "sorted" for n in ast.walk(loop[0].iter)), "sorted-output", "entries are written in sorted order")
-    wr = [c for c in A.calls(w.node) if A.unparse(c.func) == "outfile.write"]
-    ctx.check("R1", w, len(wr) == 1 and A.unparse(wr[0].args[0]) == "s + '\\n'", "one-line-per-record", "each record is one newline-terminated line")
+        ok = len(f) == 4 and f[0].has("$e.location", EW) and f[1].arrow() and f[2].has("$e.target", EW)
+        ok2 = any(x.arrow() for x in f) and any(x.has("$e.location", EW) for x in f) and any(x.has("$e.target", EW) for x in f)
+        ctx.check("R1", w, ok or ok2, "sym-fields", "sym record = location, '->', target, mtime", f"sym fields {[x.text for x in f]}")
+        mt = [x for x in f if x.mentions("mtime")]
+        ctx.check("R1", w, len(mt) == 1 and mt[0].has("str(int($e.mtime))", EW), "sym-mtime-integral", "a symlink's mtime is written truncated to an integer", f"sym mtime is written as {[x.text for x in mt]}")
+    hexmd5 = M.count(r.node, "int($s[-2], 16)", ER)
+    intmt = sum(1 for c in A.calls(r.node) for k in c.keywords if k.arg == "mtime" and M.pat("int($s[-1])").matches(k.value, ER))
+    ctx.check("R1", r, hexmd5 >= 1 and intmt == 2, "reader-codecs", "md5 is read as hex, mtime as int, for files and symlinks")
+    ctx.check("R1", r, pm is not None, "sym-separator-token", "the symlink record is split at the '->' token")
+    ctx.check("R1", w, any(isinstance(n, ast.Call) and dotted(n.func) == "sorted" for n in ast.walk(loop.iter)), "sorted-output", "entries are written in sorted order")
+    ctx.check("R1", w, line_w is not None and A.contains_node(loop, wr[0]), "one-line-per-record", "each record is one newline-terminated line")
     ctx.floor("R1", 14)
 
     # ---- R2 free-form fields ---------------------------------------------------------------
     for tag, (sep, fields) in sorted(wt.items()):
-        free = [x for x in fields if x.endswith(".location") or x.endswith(".target")]
+        free = [x.text for x in fields if x.attr("location", "target")]
         ctx.check("R2", w, len(free) <= 1, f"free-form-fields:{tag}={len(free)}", f"`{tag}` records carry at most one free-form field",
                   f"`{tag}` records carry {len(free)} free-form fields ({free}) separated only by the token '->', which the reader locates by its FIRST occurrence: a location containing ' -> ' reads back as a different path and target")
     ctx.floor("R2", 5)
 
     # ---- R3 atomic replace -----------------------------------------------------------------------
-    hs = [t.id for t, v, _ in A.assignments(w.node) if isinstance(t, ast.Name) and isinstance(v, ast.Call) and A.unparse(v) == "self._get_fd(True)"]
+    hs = [t.id for t, v, _ in A.assignments(w.node) if isinstance(t, ast.Name) and M.pat("self._get_fd(True)").matches(v)]
     ctx.require(hs, "ContentsFile._write: write handle not found")
     atomic.check(ctx, "R3", w, hs, what="CONTENTS")
     gf = P.func(MOD, "ContentsFile._get_fd")
